@@ -29,6 +29,12 @@
 (* sequence, own hint).  The spend-hint cache is keyed by the outpoint     *)
 (* when there is one, so the kinds 0 and 1 of one outpoint share a hint    *)
 (* entry (SKey); all other requests have their own.                        *)
+(* Bound to the code (c14.py part "kinds"): model checked with all three   *)
+(* spend kinds of one outpoint / both conf kinds of one tx side by side,   *)
+(* TxNotifierGen with ConfTargets = 1..4, SpendTargets = 1..3 (NOuts = 1), *)
+(* directed/b_kinds_*.ndjson and every other non-focus run of the          *)
+(* free-running driver (VERIF_KINDS); the trace lines carry both hint      *)
+(* caches as read back through every request id.                           *)
 (*                                                                         *)
 (* The code part (chain .. panic) is structured as the implementation: one *)
 (* action per method that takes the notifier's mutex; Connect is           *)
@@ -39,6 +45,9 @@
 (* active chain in the requested range and arrives before the request      *)
 (* matures (DESIGN 10.7, observation O1) - or, "backend ahead", reports a   *)
 (* block at tip+1 that the notifier has not connected (yet, or ever).      *)
+(* Besides the block notifications the backend may hand over the confirmed *)
+(* spender of a watched outpoint on its own (ProcessRelevantSpendTx), after *)
+(* or before ("ahead") the block that contains it is connected.             *)
 (* The observation part (out, hd, err) is what a client that empties its   *)
 (* channels after every call sees; told/toldAt is the client's belief.     *)
 (***************************************************************************)
@@ -361,6 +370,44 @@ HistSpendAhead(o) ==
   /\ UNCHANGED <<chain, reorgDepth, csets, regs, byConf, byInit, spBy, chint, shint, panic, nextBlk, maxTip, hc>>
   /\ Ghost
 
+(* ProcessRelevantSpendTx(tx, height): the backend's own filter (btcwallet's  *)
+(* RelevantTx of btcd/bitcoind, neutrino's filtered block) hands over the      *)
+(* confirmed spender of outpoint p together with the height of its block.     *)
+(* The notification is truthful - the spender is in the block at that height  *)
+(* of the active chain - but not ordered with the block notifications: it may *)
+(* come after the block was connected (then only requests registered since,   *)
+(* whose historical rescan is still outstanding, have no details yet) or      *)
+(* before ("ahead": the block at tip+1 has not been connected and may never   *)
+(* be).  filterTx looks up every kind of request the input fulfils and        *)
+(* updateSpendDetails runs for each of them; the outstanding historical       *)
+(* rescans stay outstanding (their answer is ignored while details are set).  *)
+RelHit(p) == {o \in SpendTargets : SOut(o) = p /\ ssets[o].ex /\ ssets[o].h = 0}
+RelevantSpend(p) ==
+  /\ p \in Outs /\ SpentAt(p) # 0
+  /\ LET T   == Tip
+         at  == SpentAt(p)
+         v   == chain[at].inc[p]
+         hit == RelHit(p)
+         S(o) == SubsIn(regs, "spend", o)
+         now == UNION {DSNow(regs, S(o)) : o \in hit}
+     IN
+     /\ ssets' = [o \in SpendTargets |-> IF o \in hit THEN [ex |-> TRUE, rs |-> "done", h |-> at, v |-> v] ELSE ssets[o]]
+     /\ shint' = [k \in HKeys |-> IF \E o \in hit : SKey(o) = k THEN at ELSE shint[k]]
+     /\ regs' = [j \in RegIds |-> IF j \in now THEN [regs[j] EXCEPT !.disp = TRUE] ELSE regs[j]]
+     /\ spBy' = spBy \cup UNION {IF Repaired THEN (IF at + Safety > T THEN {<<at, o>>} ELSE {})
+                                             ELSE DSBy(regs, S(o), at, o, T) : o \in hit}
+     /\ out' = [j \in RegIds |-> IF j \in now THEN SpendEv(at, v) ELSE NoEv]
+  /\ hd' = NoR /\ err' = 0
+  /\ UNCHANGED <<chain, reorgDepth, csets, byConf, byInit, chint, panic, nextBlk, maxTip, hc, hs>>
+  /\ Ghost
+
+RelevantSpendAhead(p) ==
+  /\ p \in Outs /\ SpentAt(p) = 0
+  /\ ssets' = [o \in SpendTargets |-> IF o \in RelHit(p) THEN [ssets[o] EXCEPT !.rs = "done"] ELSE ssets[o]]
+  /\ out' = Quiet /\ hd' = NoR /\ err' = 0
+  /\ UNCHANGED <<chain, reorgDepth, csets, regs, byConf, byInit, spBy, chint, shint, panic, nextBlk, maxTip, hc, hs>>
+  /\ Ghost
+
 \* the smallest block id that neither the chain nor the notifier nor a client refers to
 UsedIds == {chain[h].id : h \in 1..Len(chain)} \cup {csets[t].b : t \in ConfTargets}
            \cup {toldAt[i].b : i \in RegIds}
@@ -501,6 +548,8 @@ Next ==
   \/ \E o \in SpendTargets : HistSpend(o)
   \/ \E t \in ConfTargets : HistConfAhead(t)
   \/ \E o \in SpendTargets : HistSpendAhead(o)
+  \/ \E p \in Outs : RelHit(p) # {} /\ RelevantSpend(p)
+  \/ \E p \in Outs : RelHit(p) # {} /\ RelevantSpendAhead(p)
 
 Spec == Init /\ [][Next]_vars
 
